@@ -162,6 +162,12 @@ pub fn ends_in_fresh_process(det: &str, src: &str, secs: u64) -> Option<bool> {
 /// Default reaction outside C04: a hanging detector is not this check's property; stop as a
 /// machinery error instead of running forever.
 pub fn hang_is_machinery(det: &str, src: &str) {
+    // load on the machine must not look like a hang: the same call, alone in a fresh process, decides; if it ends there, the
+    // call in this process was merely starved and the watchdog gives it a new deadline
+    if ends_in_fresh_process(det, src, 120) == Some(true) {
+        eprintln!("note: a call of {} exceeded the watchdog limit in this process but ends at once in a fresh one (machine under load); continuing", det);
+        return;
+    }
     eprintln!("MACHINERY: detector {} did not return within the watchdog limit on input {:?}", det, src);
     std::process::exit(2);
 }
